@@ -461,7 +461,116 @@ pub fn run(ctx: &mut Ctx, eng: &mut dyn Engine) {
     family_review(&mut g, &mut rng, thorough);
     family_malformed(&mut g, &mut rng, thorough);
     family_xml(&mut g, &mut rng, thorough);
+    family_multi(&mut g, &mut rng, thorough);
     family_fuzz(&mut g, &mut rng, thorough);
+}
+
+/// the datagram with its TSI field rewritten (hook-built packets: 16-bit TSI at bytes 8..10); `None` when the
+/// real parser does not read the wanted TSI from the result
+fn retsi(d: &[u8], tsi: u16) -> Option<Vec<u8>> {
+    if d.len() < 12 {
+        return None;
+    }
+    let mut x = d.to_vec();
+    x[8] = (tsi >> 8) as u8;
+    x[9] = (tsi & 0xFF) as u8;
+    match guarded(|| parse_info(&x)) {
+        Ok(Ok(i)) if i.tsi == tsi as u64 => Some(x),
+        _ => None,
+    }
+}
+
+/// MultiReceiver (review batch 4, row 6): several sessions on one endpoint, interleaved; unparsable datagrams;
+/// close-session packets for a live and for an unknown session; cleanup.  Every call is COMPARED with agent tsi's
+/// `MultiRecv.pushBytes / step` over `recvMachine (Full.iface params0)` (driver ops mcfg / mpkt / mcleanup).
+fn family_multi(g: &mut G, rng: &mut Rng, thorough: bool) {
+    let far = ntp_secs(T0 + 300_000 * SEC).to_string();
+    let rounds = if thorough { 12 } else { 3 };
+    for k in 0..rounds {
+        let once = k % 2 == 0;
+        g.ctx.case(&format!("multi-sessions-{}", k));
+        g.eng.reset();
+        g.ctx.nontrivial(&format!("multi-sessions {}", k));
+        g.ctx.count("multi:sessions");
+        g.ctx.step(g.eng, &format!("recv mcfg 2 65536 {} 1", once as u8));
+        let tsis: Vec<u16> = vec![1, 2, 7];
+        let mut shadows: std::collections::HashMap<u16, Shadow> = std::collections::HashMap::new();
+        // per session: one FDT instance listing TOI 5 (and 6), then the objects; packets of the sessions interleaved
+        let mut queue: Vec<(u16, Vec<u8>)> = Vec::new();
+        for t in &tsis {
+            let len5 = rng.range(20, 90) as usize;
+            let len6 = rng.range(1, 60) as usize;
+            let f = fdt_xml(&far, &[("5".to_string(), len5), ("6".to_string(), len6)], 16, 4);
+            let mut mine: Vec<Vec<u8>> = fdt_pkts(&f, 1 + *t as u32, 64, None);
+            mine.extend(obj_pkts(5, len5, 16, 4, false, false));
+            mine.extend(obj_pkts(6, len6, 16, 4, k % 3 == 0, false));
+            for d in mine {
+                if let Some(x) = retsi(&d, *t) {
+                    queue.push((*t, x));
+                }
+            }
+        }
+        // interleave: stable shuffle by a random key per packet that keeps the per-session order
+        let mut idx: std::collections::HashMap<u16, usize> = std::collections::HashMap::new();
+        let mut per: std::collections::HashMap<u16, Vec<Vec<u8>>> = std::collections::HashMap::new();
+        for (t, d) in queue {
+            per.entry(t).or_default().push(d);
+        }
+        let total: usize = per.values().map(|v| v.len()).sum();
+        let mut now = T0;
+        let mut sent = 0usize;
+        while sent < total {
+            let t = tsis[rng.below(tsis.len() as u64) as usize];
+            let i = *idx.get(&t).unwrap_or(&0);
+            let v = per.get(&t).unwrap();
+            if i >= v.len() {
+                continue;
+            }
+            idx.insert(t, i + 1);
+            sent += 1;
+            now += 1000;
+            let d = v[i].clone();
+            // the XML parser's answer for the model: the shadow reassembly of THIS session
+            let mut ans = "X".to_string();
+            if let Ok(Ok(info)) = guarded(|| parse_info(&d)) {
+                if info.toi == 0 {
+                    if let Some(id) = info.fdt_id {
+                        let sh = shadows.entry(t).or_insert_with(|| Shadow { once, obj_to: false, ..Default::default() });
+                        let done = sh.feed(&info, now as i128);
+                        if let Some(inst) = sh.inst.get(&id) {
+                            if done {
+                                ans = ans_str(inst);
+                            }
+                        }
+                    }
+                }
+            }
+            let obs = g.ctx.step(g.eng, &format!("recv mpkt {} {} {}", now, hex(&d), ans));
+            let _ = obs;
+            // now and then: garbage, a close-session packet for a session that does not exist, the half-way
+            // close of session 2 (its objects still in flight are dropped: writer error callbacks), a cleanup
+            if sent % 7 == 3 {
+                let n = rng.range(0, 20) as usize;
+                let junk = rng.bytes(n);
+                g.ctx.step(g.eng, &format!("recv mpkt {} {} X", now, hex(&junk)));
+            }
+            if sent == total / 3 {
+                if let Some(c) = retsi(&hk::new_alc_pkt_close_session(&0u128, TSI), 9) {
+                    g.ctx.step(g.eng, &format!("recv mpkt {} {} X", now, hex(&c)));
+                }
+            }
+            if sent == total / 2 {
+                if let Some(c) = retsi(&hk::new_alc_pkt_close_session(&0u128, TSI), 2) {
+                    g.ctx.step(g.eng, &format!("recv mpkt {} {} X", now, hex(&c)));
+                }
+            }
+            if sent % 11 == 5 {
+                g.ctx.step(g.eng, &format!("recv mcleanup {}", now));
+            }
+        }
+        g.ctx.step(g.eng, &format!("recv mcleanup {}", now + SEC));
+        g.ctx.end_case(g.eng);
+    }
 }
 
 const SKEWS: [i64; 13] = [
